@@ -1088,7 +1088,7 @@ pub fn c15(big: bool) -> BoxedStrategy<Case> {
         1 => (mailbox(), any::<bool>()).prop_map(|(mailbox, owning)| SpawnSpec::Build { mailbox, strategy: RStrat::NonRestartable, timeout: None, fail_on_timeout: false, owning }),
         1 => (mailbox(), any::<bool>(), 2u32..6).prop_map(|(mailbox, owning, t)| SpawnSpec::Build { mailbox, strategy: RStrat::Default, timeout: Some(t), fail_on_timeout: false, owning }),
     ];
-    let base = OpWeights { send: 16, call: 16, ping: 2, convert: 22, yield_: 4, sleep: 14, give: 3, drop: 10, stop: 0, max_sleep: 10, ..MSG_WEIGHTS };
+    let base = OpWeights { send: 16, call: 16, ping: 2, convert: 22, yield_: 4, sleep: 14, give: 3, drop: 10, stop: 1, await_: 2, max_sleep: 10, ..MSG_WEIGHTS };
     let op = mixed_ops(base, vec![(14, msg_op(1, 2, ctx_work(2, 1, 6))), (10, h().prop_map(|h| ClientOp::Upgrade { h }).boxed()), (6, export_weak_op()), (3, (h(), 6u32..10).prop_map(|(h, d)| ClientOp::Send { h, work: vec![Step::Sleep(d)] }).boxed())]);
     let timers = prop_oneof![
         1 => Just(vec![]),
